@@ -707,6 +707,22 @@ pub fn mutate_armor(lf: &Leaf, span: (usize, usize), m: &str, a: &str, bytes: &[
 				_ => return None,
 			}
 		}
+		// filler (discardable characters of the armor frames) ahead of the header, alone, or before a cut header
+		"pad" | "padonly" | "padcut" => {
+			let n: usize = a.parse().unwrap_or(1);
+			let fill: Vec<u8> = b" \n>\t\r".iter().cycle().take(n.max(1)).cloned().collect();
+			match m {
+				"pad" => splice(&mut v, s, 0, &fill[..n]),
+				"padonly" => v = fill[..n].to_vec(),
+				_ => {
+					// n bytes in all: filler, then the first 7 characters of the header
+					let keep = 7.min(l);
+					let head = v[s..s + keep].to_vec();
+					v = fill[..n.saturating_sub(keep)].to_vec();
+					v.extend_from_slice(&head);
+				}
+			}
+		}
 		"body" => match a {
 			"empty" => splice(&mut v, s, l, b""),
 			"short" => splice(&mut v, s, l, b"11 "),
